@@ -258,6 +258,8 @@ c13!(c13_bool_f64, 11, 13, [Bool, Float(Width64)]);
 c13_lit!(c13_u8_string_u32, 10, 12, [Unsigned(BitLength8), StringType, Unsigned(BitLength32)], 1, 2, true);
 c13!(c13_s16_s16_s16, 8, 10, [Signed(BitLength16), Signed(BitLength16), Signed(BitLength16)]);
 c13!(c13_empty_list, 3, 5, []);
+c13!(c13_u128_u8, 19, 21, [Unsigned(BitLength128), Unsigned(BitLength8)]);
+c13!(c13_s64_u16, 12, 14, [Signed(BitLength64), Unsigned(BitLength16)]);
 
 /// Fixed-point kinds are outside the property's list: only "returns, never
 /// panics" is asserted (kind and width literal per harness).
